@@ -120,18 +120,29 @@ Section Sem.
              end
     end.
 
-  (* Loop1CharBody: the body is a single-character leaf *)
-  Fixpoint l1_results (code : list insn) (fwd : bool) (gs : list groupdata) (mn : N) (mx : option N) (greedy : bool)
+  (* Loop1CharBody: the body is a single-character leaf, run through its one-step function *)
+  Definition single_step (lb : bool) (n : node) (fwd : bool) : option (nat -> option (option nat)) :=
+    match leaf_code lb n with
+    | Some code => Some (run_insns code fwd)
+    | None =>
+        match n with
+        | NBracket b => Some (fun q => match next_if ix fwd h q (bracket_matches b) with
+                                       | Ok r => Some r | Err _ => None end)
+        | _ => None
+        end
+    end.
+
+  Fixpoint l1_results (stepf : nat -> option (option nat)) (gs : list groupdata) (mn : N) (mx : option N) (greedy : bool)
            (lf : nat) (k : N) (q : nat) {struct lf} : option (list mst) :=
     match lf with
     | O => None
     | S lf' =>
-      let taken := if k <? max_val mx then run_insns code fwd q else Some None in
+      let taken := if k <? max_val mx then stepf q else Some None in
       match taken with
       | None => None
       | Some None => Some (if mn <=? k then [(q, gs)] else [])
       | Some (Some q') =>
-          match l1_results code fwd gs mn mx greedy lf' (k + 1) q' with
+          match l1_results stepf gs mn mx greedy lf' (k + 1) q' with
           | None => None
           | Some it => Some (if mn <=? k then (if greedy then it ++ [(q, gs)] else (q, gs) :: it) else it)
           end
@@ -215,9 +226,9 @@ Section Sem.
       | NLoop body mn mx greedy egs ege =>
           loop_results (ir_results f body fwd) mn mx greedy egs ege f 0 p x
       | NLoop1CharBody body mn mx greedy =>
-          match leaf_code (negb fwd) body with
+          match single_step (negb fwd) body fwd with
           | None => None
-          | Some code => l1_results code fwd gs mn mx greedy f 0 p
+          | Some stepf => l1_results stepf gs mn mx greedy f 0 p
           end
       | leaf =>
           match leaf_code (negb fwd) leaf with
@@ -232,13 +243,21 @@ End Sem.
 Definition ir_top (n : node) : node :=
   match n with
   | NCat l => match rev l with NGoal :: r => NCat (rev r) | _ => n end
+  | NGoal => NCat []                                        (* the optimizer reduces an always-matching pattern to Goal *)
+  | NCharSet [] => NCat [NCharSet []]                       (* ... and a never-matching one to make_always_fails() *)
   | _ => n
   end.
+
+(* the two shapes of a whole-pattern IR: Cat [body...; Goal], or Goal alone *)
+Definition top_shape (n : node) (body : list node) : Prop :=
+  n = NCat (body ++ [NGoal]) \/ (n = NGoal /\ body = []) \/
+  (* propagate_early_fails collapses a pattern that cannot match to make_always_fails() = CharSet [], Goal included *)
+  (n = NCharSet [] /\ body = [NCharSet []]).
 
 Fixpoint ir_search (ix : indexer) (unicode utf16 : bool) (h : hay) (fuel : nat) (n : node) (ngroups : nat)
          (tries : nat) (p : nat) : option (option (nat * nat * list groupdata)) :=
   match tries with
-  | O => Some None
+  | O => None                                                  (* out of tries: inconclusive *)
   | S t =>
       match ir_results ix unicode utf16 h fuel n true (p, repeat gd_empty ngroups) with
       | None => None
@@ -250,4 +269,25 @@ Fixpoint ir_search (ix : indexer) (unicode utf16 : bool) (h : hay) (fuel : nat) 
           | Err _ => None
           end
       end
+  end.
+
+(* Loop1CharBody is only formed around a node that emits exactly one single-character instruction
+   (ir.rs: the parser forms it when the loopee matches exactly one character).  The driver checks this
+   predicate on every IR the implementation produces. *)
+Definition l1_body_ok (body : node) : bool :=
+  match body with
+  | NBracket _ => true
+  | _ => match leaf_code false body, leaf_code true body with Some [_], Some [_] => true | _, _ => false end
+  end.
+
+Fixpoint ir_wf (n : node) : bool :=
+  match n with
+  | NGoal => false
+  | NCat l => (fix go (l : list node) : bool := match l with [] => true | x :: t => ir_wf x && go t end) l
+  | NAlt a b => ir_wf a && ir_wf b
+  | NCaptureGroup _ c _ => ir_wf c
+  | NLookaround _ _ _ _ c => ir_wf c
+  | NLoop body _ _ _ _ _ => ir_wf body
+  | NLoop1CharBody body _ _ _ => l1_body_ok body
+  | _ => true
   end.
